@@ -411,6 +411,10 @@ func (fr *Frame) chanRecv(st *State, ch *Term, chType types.Type, commaOk bool, 
 	n := ex.get(st, "ChanRecvN_"+typeKey(elem), ns)
 	cnt := Select(n, ch)
 	ex.assume(st, Implies(Not(ok), Eq(v, ex.ctx.Zero(elem))))
+	// the log of received values doubles as a prophecy: what is received as the cnt-th value is what the log (an
+	// arbitrary array until then) holds at cnt, so that a precondition can speak about the values still to come
+	// (forall j >= recvN(ch): P(recvAt(ch, j)))
+	ex.assume(st, Implies(ok, Eq(v, Select(Select(sq, ch), cnt))))
 	fr.loadFacts(st, v, elem)
 	ex.set(st, seq, Ite(ok, Store(sq, ch, Store(Select(sq, ch), cnt, v)), sq))
 	ex.set(st, "ChanRecvN_"+typeKey(elem), Ite(ok, Store(n, ch, Add(cnt, IntLit(1))), n))
